@@ -213,6 +213,10 @@ def language_sites():
         ("lang:assign-undefined", "", "undefv = 1"),
         ("lang:addassign-undefined", "", "undefv += 1"),
         ("lang:addassign-type", "", "{ let sv = \"a\" sv += 1 }"),
+        ("lang:let-unknown-type", "", "{ let hv: Nosuchtypev = 1 }"),
+        ("lang:for-destructure-len", "", "for (av, bv) in [(1, 2, 3)] { av }"),
+        ("lang:for-destructure-len-later", "", "for (av, bv) in [(1, 2), (1, 2, 3)] { av }"),
+        ("lang:for-destructure-nontuple", "", "for (av, bv) in [1] { av }"),
         ("lang:tuple-destructure", "", "{ let (av, bv) = 3 }"),
         ("lang:tuple-destructure-len", "", "{ let (av, bv) = (1, 2, 3) }"),
         ("lang:or_throw-none", "", "None.or_throw()"),
